@@ -190,10 +190,20 @@ def group_grew(old, g):
     return AND(grows(old.A, g.A, "A"), grows(old.R, g.R, "R"), grows(old.G, g.G, "G"), grows(old.done, g.done, "done"))
 
 
+def saved_term(g, it, skip_names, skip_types):
+    """`every non-skipped attribute of the object is completely serialised in g`.  At call sites of `_recursive_save` the
+    statement is carried as an abbreviation (an uninterpreted predicate of the `done` map introduced by that call for exactly
+    this object and these skip lists); `_recursive_save`'s own verification proves the quantified formula it abbreviates."""
+    tok = getattr(g, "saved_token", None)
+    if tok is not None and tok[1] is it and tok[2] == skip_names and tok[3] == skip_types:
+        return tok[0](g.done)
+    return saved_formula(g.done, it, skip_names, skip_types)
+
+
 def group_complete(g, it, skip_names, skip_types):
     if g is None:
         return z3.BoolVal(False)
-    return AND(z3.Select(g.A, SV(MARKER)), saved_formula(g.done, it, skip_names, skip_types),
+    return AND(z3.Select(g.A, SV(MARKER)), saved_term(g, it, skip_names, skip_types),
                z3.Select(g.A, SV(SKIPN)), z3.Select(g.A, SV(SKIPT)))
 
 
@@ -247,6 +257,16 @@ def faulted(s):
     return bool(M.world(s.ctx).faults)
 
 
+def has_handlers(qualname):
+    """Does the CURRENT source of the function contain a `try` statement?  (Only then can the class of a fault matter.)"""
+    import ast
+
+    from pyvc.interp import func_ast
+
+    node = func_ast(resolve(qualname))[0]
+    return any(isinstance(n, ast.Try) for n in ast.walk(node))
+
+
 def fault_raises(cond):
     return {F: cond for F in M.FAULTS}
 
@@ -260,22 +280,31 @@ def P(s, name):
     return s.param_values[name]
 
 
-def save_setup(ctx):
-    w = M.world(ctx)
-    path = ctx.fresh("path", "str")
-    mode = ctx.fresh("mode", "str")
-    store = ctx.fresh("store", "str")
-    comp = opt_int(ctx, "compression_level")
-    me = Obj(_Probe, {})
-    s = NS(self=me, path=path, store=store, skip=(), compression_level=comp, world=w)
-    s.param_values = dict(self=me, path=path, mode=mode, store=store, skip=(), compression_level=comp)
-    s.items = items_of(ctx, me)
-    # the two paths the caller's argument can denote (used by the freshness contract of TemporaryDirectory)
-    ctx.ghost["c08.named_paths"] = [path, Sym(z3.Concat(path.t, SV(".zip")))]
-    # ghost constant: the kind of the real target before the call (read back by `concretize`)
-    s.k_target = ctx.fresh("target_kind", "int")
-    ctx.assume(s.k_target.t == w.fs.K0(save_target(s)))
-    return s
+def save_setup_case(storekind, compkind):
+    """One case of the input space per Contract object (they are verified in parallel): which store the arguments resolve
+    to (zip / dir / neither) x compression_level None / int.  The cases are exhaustive; everything else stays symbolic."""
+
+    def save_setup(ctx):
+        w = M.world(ctx)
+        w.handlers_in_scope = has_handlers(f"{SER}:AutoSerialize.save")
+        path = ctx.fresh("path", "str")
+        mode = ctx.fresh("mode", "str")
+        store = ctx.fresh("store", "str")
+        comp = None if compkind == "none" else ctx.fresh("compression_level", "int")
+        me = Obj(_Probe, {})
+        s = NS(self=me, path=path, store=store, skip=(), compression_level=comp, world=w)
+        s.param_values = dict(self=me, path=path, mode=mode, store=store, skip=(), compression_level=comp)
+        s.items = items_of(ctx, me)
+        s.storekind = storekind
+        ctx.assume({"zip": zip_store(s), "dir": dir_store(s), "none": NOT(OR(zip_store(s), dir_store(s)))}[storekind])
+        # the two paths the caller's argument can denote (used by the freshness contract of TemporaryDirectory)
+        ctx.ghost["c08.named_paths"] = [path, Sym(z3.Concat(path.t, SV(".zip")))]
+        # ghost constant: the kind of the real target before the call (read back by `concretize`)
+        s.k_target = ctx.fresh("target_kind", "int")
+        ctx.assume(s.k_target.t == w.fs.K0(save_target(s)))
+        return s
+
+    return save_setup
 
 
 def ends_zip(s):
@@ -310,13 +339,14 @@ def blocked(s):
 
 
 def save_requires(s):
+    """Inv(FS) - every loadable path holds a complete object - and well-formedness of the old state, instantiated at the two
+    paths the argument can denote (the generalisation to all paths is the property-level lemma)."""
     fs = s.world.fs
-    q = z3.String("q!inv")
-    return [
-        ("Inv(FS): every loadable path holds a complete object", forall(q, implies(fs.L0(q), fs.C0(q)), patterns=[fs.L0(q)])),
-        ("FS well-formed", fs.well_formed_old()),
-        ("attribute names are distinct", names_distinct(s.items)),
-    ]
+    out = []
+    for nm, q in (("path", P(s, "path").t), ("path+.zip", z3.Concat(P(s, "path").t, SV(".zip")))):
+        out.append((f"Inv(FS) at {nm}: loadable => complete", implies(fs.L0(q), fs.C0(q))))
+        out.append((f"FS well-formed at {nm}", AND(fs.K0(q) >= 0, fs.K0(q) <= 2, implies(fs.L0(q), fs.K0(q) != M.ABSENT))))
+    return out
 
 
 # ---- node -> terms -------------------------------------------------------------------------------
@@ -415,12 +445,7 @@ def atomic(s):
 
 
 def store_tag(s):
-    ctx = s.ctx
-    if ctx.entails(zip_store(s)):
-        return "zip"
-    if ctx.entails(dir_store(s)):
-        return "dir"
-    return "none"
+    return s.storekind
 
 
 def save_ensures(s):
@@ -496,17 +521,21 @@ def havoc_zip(s):
     zip_of(s).havoc(s.ctx)
 
 
-C_SAVE = Contract(
-    f"{SER}:AutoSerialize.save", setup=save_setup, requires=save_requires, ensures=save_ensures, on_raise=save_on_raise,
-    raises=dict({
-        ValueError: save_value_error,
-        FileExistsError: lambda s: AND(comp_ok(s), blocked(s)),
-    }, **{}),
-    loops={0: LoopSpec(inv=save_outer_inv, havoc={"zip": havoc_zip}),
-           1: LoopSpec(inv=save_inner_inv, havoc={"zip": havoc_zip})},
-    max_paths=6000,
-)
-C_SAVE.raises.update(fault_raises(lambda s: faulted(s)))
+def make_save_contract(storekind, compkind):
+    c = Contract(
+        f"{SER}:AutoSerialize.save", setup=save_setup_case(storekind, compkind), requires=save_requires, ensures=save_ensures,
+        on_raise=save_on_raise,
+        raises={ValueError: save_value_error, FileExistsError: lambda s: AND(comp_ok(s), blocked(s))},
+        loops={0: LoopSpec(inv=save_outer_inv, havoc={"zip": havoc_zip}),
+               1: LoopSpec(inv=save_inner_inv, havoc={"zip": havoc_zip})},
+        max_paths=6000, note=f"case: store resolves to {storekind}, compression_level {compkind}",
+    )
+    c.raises.update(fault_raises(lambda s: faulted(s)))
+    return c
+
+
+SAVE_CASES = [(sk, ck) for sk in ("zip", "dir", "none") for ck in ("int", "none")]
+C_SAVES = [make_save_contract(sk, ck) for sk, ck in SAVE_CASES]
 
 # ------------------------------------------------------------------------------------------------
 # AutoSerialize._recursive_save
@@ -515,6 +544,7 @@ C_SAVE.raises.update(fault_raises(lambda s: faulted(s)))
 
 def rs_setup(ctx):
     w = M.world(ctx)
+    w.handlers_in_scope = has_handlers(f"{SER}:AutoSerialize._recursive_save")
     it = Items(ctx, "obj")
     g = M.GhostGroup(w, unknown=True, tag="grp")
     s = NS(self=Obj(_Probe, {}), obj=GhostInstance(it), group=g, skip_names=GhostNameSet(ctx), skip_types=GhostTypeTuple(),
@@ -527,7 +557,7 @@ def rs_items(s):
 
 
 def rs_requires(s):
-    return [("attribute names are distinct", names_distinct(rs_items(s)))]
+    return []
 
 
 def rs_snapshot(s):
@@ -544,6 +574,8 @@ def some_unserialisable(s, upto=None):
 def rs_ensures(s):
     g = s.group
     it = rs_items(s)
+    if s.mode == "apply":
+        return []  # assumed by rs_modifies (marker + the abbreviation of the quantified statement)
     return [
         ("marker-written", z3.Select(g.A, SV(MARKER))),
         ("every-non-skipped-attribute-serialised", saved_formula(g.done, it, s.skip_names, s.skip_types)),
@@ -580,8 +612,16 @@ def rs_havoc(s):
         setattr(g, f, z3.Const(f"{n}_{f}", z3.ArraySort(STR, BOOL)))
 
 
+def havoc_free(ctx, g, tag):
+    n = ctx.fresh_name(tag)
+    for f in ("A", "R", "G", "done"):
+        setattr(g, f, z3.Const(f"{n}_{f}", z3.ArraySort(STR, BOOL)))
+    g.touch()
+
+
 def rs_modifies(ctx, s):
-    """Call site: either everything was serialised, or it failed somewhere leaving an arbitrary partial group."""
+    """Call site: either everything was serialised, or it failed somewhere leaving an arbitrary partial group.
+    (The call site learns LESS than the verified postcondition: the `nothing removed` clause is not handed over.)"""
     w = M.world(ctx)
     g = s.group
     if not isinstance(g, M.GhostGroup):
@@ -589,12 +629,13 @@ def rs_modifies(ctx, s):
     it = rs_items(s)
     s.world = w
     if not w.faults and ctx.branch(ctx.fresh("fault@_recursive_save", "bool").t):
-        g.havoc_grow("partial")
+        havoc_free(ctx, g, "partial")
         M.raise_fault(ctx, "_recursive_save", "serialisation failed part-way")
-    old = group_snapshot(g)
-    g.havoc_grow("saved")
+    havoc_free(ctx, g, "saved")
     ctx.assume(z3.Select(g.A, SV(MARKER)))
-    ctx.assume(saved_formula(g.done, it, s.skip_names, s.skip_types))
+    tok = z3.Function(ctx.fresh_name("all_attributes_serialised"), z3.ArraySort(STR, BOOL), BOOL)
+    g.saved_token = (tok, it, s.skip_names, s.skip_types)
+    ctx.assume(tok(g.done))
 
 
 C_RSAVE = Contract(
@@ -974,7 +1015,7 @@ def conc_save(ev):
     for name, val in ev.table.items():
         if name.startswith("fault@") and z3.is_true(val):
             site = _SITE_MAP.get(name[len("fault@"):].split("!")[0])
-    comp = None if ev("compression_level_is_none", False) else ev("compression_level", 4)
+    comp = ev("compression_level", None)
     return dict(store=store, mode=mode, suffix=suffix, pre=pre, fault=[site, None] if site else None, compression_level=comp)
 
 
@@ -999,10 +1040,11 @@ def fam_small():
         yield d
 
 
-C_SAVE.concretize, C_SAVE.rt, C_SAVE.rt_family = conc_save, rt_save_any_k, fam_small
+for _c in C_SAVES:
+    _c.concretize, _c.rt, _c.rt_family = conc_save, rt_save_any_k, fam_small
 C_RSAVE.concretize, C_RSAVE.rt, C_RSAVE.rt_family = None, rt_save_any_k, fam_small
 
-CONTRACTS = [C_SAVE, C_RSAVE]
+CONTRACTS = C_SAVES + [C_RSAVE]
 APPLY_ONLY = [C_SVALUE_APPLY]
 
 # ------------------------------------------------------------------------------------------------
